@@ -1,14 +1,27 @@
 (* C17 - Values survive the journey unchanged.
    Statements only; proofs live in Proofs/ValueProofs.v, ValueProofsLL.v, ValueProofsJson.v.
+
    journey fx g opts = NativeTypeToGnmiTypedValue (GnmiTypedValueToNativeType g modelPath): what Get in PROTO
    encoding and the device request carry for the value g that was set (the stored TypedValue in between).
-   fx = false: the code as it is; fx = true: the code with /verif/fixes/C17-*.patch applied. *)
+   fx = true  : the code AS IT IS NOW in /repo (with the repairs 0d53a20, f016b97, 951349c); this is the variant the
+                correspondence run compares the implementation with.
+   fx = false : the code before those repairs; kept only for the regression witnesses of part 3.
+
+   Part 1  what holds for the current code (theorems without suffix; most hold for both variants, "forall fx").
+   Part 2  what is still false for the current code: `_refuted` witness + `_partial` theorem under the negated
+           signature.  Exactly the open findings F-12a, F-12b, F-12e, all rooted in the onos-api dependency.
+   Part 3  `_before_repair`: what the code did before a repair (findings F-12c, d, f, g, h, now fixed).  They say
+           nothing about the current code; they keep the defect on record as a checked witness. *)
 From Coq Require Import List NArith ZArith Bool Lia.
 From OC Require Import Base.Bytes Model.Value Proofs.ValueProofs Proofs.ValueProofsLL Proofs.ValueProofsJson.
 Import ListNotations.
 Open Scope Z_scope.
 
-(* ---------------- PROTO journey, scalars: every value of the kind, every type option list, both code variants *)
+(* ======================================================================================================== *)
+(* Part 1 - the current code                                                                                *)
+(* ======================================================================================================== *)
+
+(* ---------------- PROTO journey, scalars: every value of the kind, every type option list *)
 Theorem C17_rt_string : forall fx s o, journey fx (GString s) o = Ok (GString s).
 Proof. exact rt_string. Qed.
 Print Assumptions C17_rt_string.
@@ -41,18 +54,7 @@ Proof.
 Qed.
 Print Assumptions C17_rt_decimal.
 
-(* outside decimal64: the unrepaired code keeps 8 bits of the precision ... *)
-Theorem C17_rt_decimal_precision_refuted :
-  exists d p o, int64_range d /\ journey false (GDecimal d p) o <> Ok (GDecimal d p).
-Proof. exact decimal_precision_refuted. Qed.
-Print Assumptions C17_rt_decimal_precision_refuted.
-
-Theorem C17_rt_decimal_precision_partial : forall d p o,
-  int64_range d -> 0 <= p < 256 -> journey false (GDecimal d p) o = Ok (GDecimal d p).
-Proof. intros d p o Hd Hp. apply rt_decimal; [exact Hd | exact Hp | reflexivity]. Qed.
-Print Assumptions C17_rt_decimal_precision_partial.
-
-(* ... the repaired code refuses it *)
+(* a precision outside decimal64 is refused (repair f016b97, finding F-12d) *)
 Theorem C17_decimal_precision_refused : forall d p o, 18 < p -> to_native true (GDecimal d p) o = Err.
 Proof. exact decimal_precision_refused. Qed.
 Print Assumptions C17_decimal_precision_refused.
@@ -61,11 +63,12 @@ Theorem C17_rt_float : forall fx b o, f32_range b -> f32_is_nan b = false -> jou
 Proof. exact rt_float. Qed.
 Print Assumptions C17_rt_float.
 
+(* a NaN is refused, not altered *)
 Theorem C17_nan_refused : forall fx b o, f32_is_nan b = true -> to_native fx (GFloat b) o = Err.
 Proof. exact nan_refused. Qed.
 Print Assumptions C17_nan_refused.
 
-(* ---------------- PROTO journey, homogeneous non-empty leaf-lists *)
+(* ---------------- PROTO journey, homogeneous non-empty leaf-lists (strings and bytes: part 2) *)
 Theorem C17_rt_leaflist_int : forall fx l o,
   l <> [] -> Forall int64_range l -> journey fx (GLeafList (map GInt l)) o = Ok (GLeafList (map GInt l)).
 Proof. exact rt_ll_int. Qed.
@@ -95,28 +98,6 @@ Theorem C17_rt_leaflist_float : forall fx l o,
   journey fx (GLeafList (map GFloat l)) o = Ok (GLeafList (map GFloat l)).
 Proof. exact rt_ll_float. Qed.
 Print Assumptions C17_rt_leaflist_float.
-
-(* strings: refuted in general (finding F-12a), proved when no element holds the group separator 0x1D *)
-Theorem C17_rt_leaflist_string_refuted :
-  exists l o, l <> [] /\ journey false (GLeafList (map GString l)) o <> Ok (GLeafList (map GString l)).
-Proof. exact ll_string_refuted. Qed.
-Print Assumptions C17_rt_leaflist_string_refuted.
-
-Theorem C17_rt_leaflist_string_partial : forall fx l o,
-  l <> [] -> Forall no_gs l -> journey fx (GLeafList (map GString l)) o = Ok (GLeafList (map GString l)).
-Proof. exact rt_ll_string. Qed.
-Print Assumptions C17_rt_leaflist_string_partial.
-
-(* bytes: refuted in general (finding F-12b), proved when every element after the first is non-empty *)
-Theorem C17_rt_leaflist_bytes_refuted :
-  exists l o, l <> [] /\ journey false (GLeafList (map GBytes l)) o <> Ok (GLeafList (map GBytes l)).
-Proof. exact ll_bytes_refuted. Qed.
-Print Assumptions C17_rt_leaflist_bytes_refuted.
-
-Theorem C17_rt_leaflist_bytes_partial : forall fx l o,
-  l <> [] -> tail_nonempty l -> journey fx (GLeafList (map GBytes l)) o = Ok (GLeafList (map GBytes l)).
-Proof. exact rt_ll_bytes. Qed.
-Print Assumptions C17_rt_leaflist_bytes_partial.
 
 (* ---------------- JSON (RFC 7951 rendering, the one the server uses): type and digits *)
 (* integers: a JSON number for widths 8/16/32, a JSON string for 64; the text is %d of the value and reads back *)
@@ -158,60 +139,117 @@ Theorem C17_json_bool : forall fx rfc b o,
 Proof. exact json_bool. Qed.
 Print Assumptions C17_json_bool.
 
-(* bytes: base64 string; the unrepaired code writes null for the empty value (finding F-12g) *)
-Theorem C17_json_bytes_refuted :
-  exists b o t, to_native false (GBytes b) o = Ok t /\ json_leaf false true t = Ok (Some JNull).
-Proof. exact json_bytes_refuted. Qed.
-Print Assumptions C17_json_bytes_refuted.
-
-Theorem C17_json_bytes_partial : forall rfc b o, b <> [] ->
-  exists t, to_native false (GBytes b) o = Ok t /\ json_leaf false rfc t = Ok (Some (JB64 b)).
-Proof. exact json_bytes_partial. Qed.
-Print Assumptions C17_json_bytes_partial.
-
-Theorem C17_json_bytes_repaired : forall rfc b o,
+(* bytes: always the base64 string, "" for the empty value (repair 951349c, finding F-12g) *)
+Theorem C17_json_bytes : forall rfc b o,
   exists t, to_native true (GBytes b) o = Ok t /\ json_leaf true rfc t = Ok (Some (JB64 b)).
 Proof. exact json_bytes_fixed. Qed.
-Print Assumptions C17_json_bytes_repaired.
+Print Assumptions C17_json_bytes.
 
-(* decimal64: the unrepaired code loses the sign in (-1, 0) (F-12c), panics from precision 64 on (F-12d) and writes
-   leaf-list members as JSON numbers (F-12f); the repaired code writes a string that reads back exactly *)
-Theorem C17_json_decimal_sign_refuted :
-  exists d p s, int64_range d /\ 1 <= p <= 18 /\
-    json_leaf false true (new_decimal d p) = Ok (Some (JStr s)) /\ read_decimal s <> Some (d, p).
-Proof. exact json_decimal_sign_refuted. Qed.
-Print Assumptions C17_json_decimal_sign_refuted.
-
-Theorem C17_json_decimal_panic_refuted : json_leaf false true (new_decimal 5 64) = Panic.
-Proof. exact json_decimal_panic_refuted. Qed.
-Print Assumptions C17_json_decimal_panic_refuted.
-
-Theorem C17_json_leaflist_decimal_refuted :
-  json_leaf false true (new_ll_decimal [15] 1) = Ok (Some (JArr [JDivFloat 15 1])).
-Proof. exact json_ll_decimal_refuted. Qed.
-Print Assumptions C17_json_leaflist_decimal_refuted.
-
-Theorem C17_json_decimal_repaired : forall d p o, int64_range d -> 1 <= p <= 18 ->
+(* decimal64, scalar and leaf-list: a JSON string that reads back to the same digits and precision, sign included
+   (repair 0d53a20, findings F-12c and F-12f) *)
+Theorem C17_json_decimal : forall d p o, int64_range d -> 1 <= p <= 18 ->
   exists t, to_native true (GDecimal d p) o = Ok t /\
             json_leaf true true t = Ok (Some (JStr (str_decimal64_fixed d p))) /\
             read_decimal (str_decimal64_fixed d p) = Some (d, p).
 Proof. exact json_decimal_fixed. Qed.
-Print Assumptions C17_json_decimal_repaired.
+Print Assumptions C17_json_decimal.
 
-Theorem C17_json_leaflist_decimal_repaired : forall l p o, l <> [] -> Forall int64_range l -> 1 <= p <= 18 ->
+Theorem C17_json_leaflist_decimal : forall l p o, l <> [] -> Forall int64_range l -> 1 <= p <= 18 ->
   exists t, to_native true (GLeafList (map (fun d => GDecimal d p) l)) o = Ok t /\
             json_leaf true true t = Ok (Some (JArr (map (fun d => JStr (str_decimal64_fixed d p)) l))) /\
             Forall (fun d => read_decimal (str_decimal64_fixed d p) = Some (d, p)) l.
 Proof. exact json_ll_decimal_fixed. Qed.
-Print Assumptions C17_json_leaflist_decimal_repaired.
+Print Assumptions C17_json_leaflist_decimal.
 
-(* utils.StrVal of a decimal *)
-Theorem C17_strval_decimal_refuted :
-  str_decimal64_utils false (-5) 1 = Ok (B "0.5") /\ str_decimal64_utils false 105 2 = Ok (B "1.5").
-Proof. exact strval_decimal_refuted. Qed.
-Print Assumptions C17_strval_decimal_refuted.
-
-Theorem C17_strval_decimal_repaired : forall d p, int64_range d -> 1 <= p ->
+(* utils.StrVal of a decimal reads back to the same digits and precision (repair 0d53a20, finding F-12h) *)
+Theorem C17_strval_decimal : forall d p, int64_range d -> 1 <= p ->
   exists s, str_decimal64_utils true d p = Ok s /\ read_decimal s = Some (d, p).
 Proof. exact strval_decimal_fixed. Qed.
-Print Assumptions C17_strval_decimal_repaired.
+Print Assumptions C17_strval_decimal.
+
+(* ======================================================================================================== *)
+(* Part 2 - still false for the current code (open findings, onos-api)                                      *)
+(* ======================================================================================================== *)
+
+(* F-12a  string leaf-lists: an element holding the group separator 0x1D comes back split in two;
+   proved when no element holds it *)
+Theorem C17_rt_leaflist_string_refuted : forall fx,
+  exists l o, l <> [] /\ journey fx (GLeafList (map GString l)) o <> Ok (GLeafList (map GString l)).
+Proof. exact ll_string_refuted. Qed.
+Print Assumptions C17_rt_leaflist_string_refuted.
+
+Theorem C17_rt_leaflist_string_partial : forall fx l o,
+  l <> [] -> Forall no_gs l -> journey fx (GLeafList (map GString l)) o = Ok (GLeafList (map GString l)).
+Proof. exact rt_ll_string. Qed.
+Print Assumptions C17_rt_leaflist_string_partial.
+
+(* F-12b  bytes leaf-lists: an empty element after the first one is lost and the following ones are merged;
+   proved when every element after the first is non-empty *)
+Theorem C17_rt_leaflist_bytes_refuted : forall fx,
+  exists l o, l <> [] /\ journey fx (GLeafList (map GBytes l)) o <> Ok (GLeafList (map GBytes l)).
+Proof. exact ll_bytes_refuted. Qed.
+Print Assumptions C17_rt_leaflist_bytes_refuted.
+
+Theorem C17_rt_leaflist_bytes_partial : forall fx l o,
+  l <> [] -> tail_nonempty l -> journey fx (GLeafList (map GBytes l)) o = Ok (GLeafList (map GBytes l)).
+Proof. exact rt_ll_bytes. Qed.
+Print Assumptions C17_rt_leaflist_bytes_partial.
+
+(* F-12e  float32 in RFC 7951 JSON: the leaf is the fmt "%f" text of the value (six fraction digits), so digits below
+   1e-6 are lost (1e-7 -> "0.000000").  The digits themselves are outside the model (JFloatF is "the %f text of this
+   pattern"); what is proved is which rendering the code picks, the loss is exhibited by the monitor
+   c17_float_json_fixed6 on the implementation.  The PROTO journey of floats is exact (C17_rt_float). *)
+Theorem C17_json_float_fixed6_partial : forall fx b,
+  json_leaf fx true (new_float b) = Ok (Some (JFloatF (tv_float (new_float b)))).
+Proof. exact json_float. Qed.
+Print Assumptions C17_json_float_fixed6_partial.
+
+(* ======================================================================================================== *)
+(* Part 3 - regression witnesses: the code BEFORE a repair (fx = false).  Nothing here is about /repo now.   *)
+(* ======================================================================================================== *)
+
+(* F-12d, repaired by f016b97: 8 bits of the precision were kept (256 -> 0); below 256 the PROTO journey held;
+   from precision 64 on the JSON rendering divided by zero *)
+Theorem C17_rt_decimal_precision_before_repair :
+  exists d p o, int64_range d /\ journey false (GDecimal d p) o <> Ok (GDecimal d p).
+Proof. exact decimal_precision_refuted. Qed.
+Print Assumptions C17_rt_decimal_precision_before_repair.
+
+Theorem C17_rt_decimal_below_256_before_repair : forall d p o,
+  int64_range d -> 0 <= p < 256 -> journey false (GDecimal d p) o = Ok (GDecimal d p).
+Proof. intros d p o Hd Hp. apply rt_decimal; [exact Hd | exact Hp | reflexivity]. Qed.
+Print Assumptions C17_rt_decimal_below_256_before_repair.
+
+Theorem C17_json_decimal_panic_before_repair : json_leaf false true (new_decimal 5 64) = Panic.
+Proof. exact json_decimal_panic_refuted. Qed.
+Print Assumptions C17_json_decimal_panic_before_repair.
+
+(* F-12g, repaired by 951349c: the empty bytes value was written as JSON null; non-empty values were right *)
+Theorem C17_json_bytes_null_before_repair :
+  exists b o t, to_native false (GBytes b) o = Ok t /\ json_leaf false true t = Ok (Some JNull).
+Proof. exact json_bytes_refuted. Qed.
+Print Assumptions C17_json_bytes_null_before_repair.
+
+Theorem C17_json_bytes_nonempty_before_repair : forall rfc b o, b <> [] ->
+  exists t, to_native false (GBytes b) o = Ok t /\ json_leaf false rfc t = Ok (Some (JB64 b)).
+Proof. exact json_bytes_partial. Qed.
+Print Assumptions C17_json_bytes_nonempty_before_repair.
+
+(* F-12c, repaired by 0d53a20: a decimal64 in (-1, 0) lost its sign in JSON *)
+Theorem C17_json_decimal_sign_before_repair :
+  exists d p s, int64_range d /\ 1 <= p <= 18 /\
+    json_leaf false true (new_decimal d p) = Ok (Some (JStr s)) /\ read_decimal s <> Some (d, p).
+Proof. exact json_decimal_sign_refuted. Qed.
+Print Assumptions C17_json_decimal_sign_before_repair.
+
+(* F-12f, repaired by 0d53a20: decimal64 leaf-list members were JSON numbers computed in float64 *)
+Theorem C17_json_leaflist_decimal_before_repair :
+  json_leaf false true (new_ll_decimal [15] 1) = Ok (Some (JArr [JDivFloat 15 1])).
+Proof. exact json_ll_decimal_refuted. Qed.
+Print Assumptions C17_json_leaflist_decimal_before_repair.
+
+(* F-12h, repaired by 0d53a20: StrVal lost the sign in (-1, 0) and the zeros after the point (1.05 -> "1.5") *)
+Theorem C17_strval_decimal_before_repair :
+  str_decimal64_utils false (-5) 1 = Ok (B "0.5") /\ str_decimal64_utils false 105 2 = Ok (B "1.5").
+Proof. exact strval_decimal_refuted. Qed.
+Print Assumptions C17_strval_decimal_before_repair.
